@@ -53,7 +53,7 @@ inline Plan Gen(uint64_t seed)
       for (int i=0; i<n; i++)
       {
          const int k = (int) wl.below(4);
-         switch(wl.below(12))
+         switch(wl.below(13))
          {
             case 0: case 1: case 2: s += " O" + I(k); break;
             case 3: s += " H" + I(k); break;
@@ -62,6 +62,7 @@ inline Plan Gen(uint64_t seed)
             case 8: s += " W" + I(k); break;
             case 9: s += wl.oneIn(2) ? " X" : " U"; break;
             case 10: s += wl.oneIn(3) ? " D" : " P"; break;
+            case 11: {const uint32_t q = wl.below(4); s += (q == 0) ? (" S" + I(k)) : ((q == 1) ? std::string(" A") : ((q == 2) ? std::string(" K") : std::string(" Y")));} break;
             default: s += " Y"; break;
          }
       }
@@ -113,6 +114,17 @@ template<int SLAB> struct Runner
                         if ((c2())&&(!c2()->inUse)) thr::ReportAndExit("use_after_release", "a referenced object has already been returned to its pool");
                         thr::Yield();
                         if ((c2())&&((c2()->canary != 0xC0FFEE)||(!c2()->inUse))) thr::ReportAndExit("use_after_release", "a referenced object was released while a reference to it existed");
+                     }
+                     break;
+                     case 'S': {DECLARE_MUTEXGUARD(slotLock); ObjRef & r = slots[k]; const ObjRef & alias = r; r = alias; if ((r())&&((r()->canary != 0xC0FFEE)||(!r()->inUse))) thr::ReportAndExit("released_by_self_assignment", "assigning a Ref to itself released the object it holds");} break;   // self-assignment of a (possibly sole) reference
+                     case 'A': {Obj * raw = local(); local.SetRef(raw); if ((local())&&((local()->canary != 0xC0FFEE)||(!local()->inUse))) thr::ReportAndExit("released_by_self_assignment", "SetRef() with the pointer the Ref already holds released the object");} break;
+                     case 'K':
+                     {
+                        // a non-owning (dummy) reference to an object nobody counts: const-casting it must not start counting, let alone release the object
+                        Obj onStack; onStack.inUse = true; onStack.payload = 3;
+                        {DummyConstObjRef d(onStack); ObjRef c = CastAwayConstFromRef(d); if (c() != &onStack) thr::ReportAndExit("const_cast_changed_target", "CastAwayConstFromRef returned a different object"); thr::Yield();}
+                        if ((onStack.canary != 0xC0FFEE)||(!onStack.inUse)||(onStack.GetRefCount() != 0)) thr::ReportAndExit("non_owning_ref_released_object", "a const-cast of a non-owning reference released (or started counting) an object it never owned");
+                        onStack.inUse = false;   // (so that its destructor's bookkeeping stays quiet)
                      }
                      break;
                      case 'D': pool.Drain(); res.stats.inc("p.drain"); break;
